@@ -3,6 +3,15 @@ package main
 // Per-property driver configuration. rule/assumptions go verbatim into the
 // evidence file; the counts next to them are measured by the test processes.
 var props = map[string]propCfg{
+	"C01": {
+		crashIsViolation: true,
+		rule: "three layers of source text, each in strict/sloppy and global/function/eval/new Function placement: L1 grammar-generated programs over the whole syntax (plus deep-nesting forms up to depth 196), L2 token-level mutations of L1 programs (delete/duplicate/swap/replace/insert/truncate/splice), L3 byte strings biased to JS fragments and malformed UTF-8; every input goes through Parse, Compile and RunProgram/RunString under a 150 ms interrupt watchdog; a case is non-trivial when (L1) it compiled and reached the VM or (L2/L3) it parsed or is longer than 8 bytes; distinct = FNV-64 of placement+mode+source",
+		assumptions: []string{
+			"inputs above 64 KiB or with bracket nesting above 200 are outside the property and are skipped (counted under excluded)",
+			"a run that exceeds 150 ms is interrupted (InterruptedError is a documented outcome); non-interruptible hangs are counted as inconclusive, never as violations",
+			"a Go fatal error that kills the test process is reported by the driver from the case recorded before execution",
+		},
+	},
 	"C05": {
 		rule: "pairs of numeric expression trees constructed to evaluate to the same double (exact Go float64/math/big oracle) compared through a matrix of observers, plus single conversions against numref; a case is non-trivial when the two producers differ and at least one is not a plain literal (pairs), or the operand is outside the trivially safe range (|x|>=2^31, non-integer, or a string needing trimming/prefix handling); distinct = FNV-64 of the case's script text",
 		assumptions: []string{
